@@ -350,6 +350,12 @@ def chk_pair(c, note):
         return "position(%s, %s, %r, %r%s) raised %s: %s" % (m0, m1, c["t0"], c["t1"], "".join(", %r" % x for x in ref), got[1], got[2])
     if surf and ref:
         want = call(A.surface_position, m0, m1, c["t0"], c["t1"], *ref)
+        if want[0] == "ok" and want[1] is not None and c["ctx_a"] & 3 == 0:
+            from checks import cprcommon as cg_
+            for lr in cg_.tie_longitudes(want[1][1]):   # a receiver half-way between two longitude candidates: any candidate, never another exception
+                rt = call(A.position, m0, m1, c["t0"], c["t1"], ref[0], lr)
+                if rt[0] == "raise" and rt[1] != "RuntimeError":
+                    return "position(%s, %s, %r, %r, %r, %r) raised %s: %s" % (m0, m1, c["t0"], c["t1"], ref[0], lr, rt[1], rt[2])
     elif surf:
         want = ("raise", "RuntimeError")
     elif air:
